@@ -3,6 +3,7 @@
 package core
 
 import (
+	"strings"
 	"bufio"
 	"encoding/json"
 	"fmt"
@@ -78,6 +79,30 @@ type worker struct {
 	in  *bufio.Writer
 	out *bufio.Reader
 	n   int
+	err *tailBuf
+}
+
+// tailBuf keeps the last bytes a worker wrote to stderr (fatal errors of the Go runtime end up
+// there and say where an allocation bomb or deadlock happened).
+type tailBuf struct {
+	mu  sync.Mutex
+	buf []byte
+}
+
+func (t *tailBuf) Write(p []byte) (int, error) {
+	t.mu.Lock()
+	defer t.mu.Unlock()
+	t.buf = append(t.buf, p...)
+	if len(t.buf) > 1<<16 {
+		t.buf = t.buf[len(t.buf)-(1<<16):]
+	}
+	return len(p), nil
+}
+
+func (t *tailBuf) String() string {
+	t.mu.Lock()
+	defer t.mu.Unlock()
+	return string(t.buf)
 }
 
 type Pool struct {
@@ -119,7 +144,8 @@ func (p *Pool) start() (*worker, error) {
 		cmd = exec.Command(exe, "--worker")
 	}
 	cmd.Env = append(os.Environ(), "GOMAXPROCS=2", "VERIF_IS_WORKER=1")
-	cmd.Stderr = os.Stderr
+	tail := &tailBuf{}
+	cmd.Stderr = tail
 	stdin, err := cmd.StdinPipe()
 	if err != nil {
 		return nil, err
@@ -131,21 +157,47 @@ func (p *Pool) start() (*worker, error) {
 	if err := cmd.Start(); err != nil {
 		return nil, err
 	}
-	return &worker{cmd: cmd, in: bufio.NewWriter(stdin), out: bufio.NewReaderSize(stdout, 1<<20)}, nil
+	return &worker{cmd: cmd, in: bufio.NewWriter(stdin), out: bufio.NewReaderSize(stdout, 1<<20), err: tail}, nil
 }
 
 func (w *worker) stop() {
-	if w == nil || w.cmd == nil {
+	if w == nil || w.cmd == nil || w.cmd.Process == nil {
 		return
 	}
 	w.cmd.Process.Kill()
 	w.cmd.Wait()
 }
 
+// FatalSite extracts the runtime's fatal message and the first non-runtime function from a dead
+// worker's stderr.
+func FatalSite(stderr string) (msg, fn string) {
+	lines := strings.Split(stderr, "\n")
+	for i, l := range lines {
+		if strings.HasPrefix(l, "fatal error:") || strings.HasPrefix(l, "panic:") {
+			msg = l
+			for _, f := range lines[i+1:] {
+				if strings.HasPrefix(f, "github.com/") || strings.HasPrefix(f, "golang.org/") {
+					if k := strings.LastIndex(f, "("); k > 0 {
+						f = f[:k]
+					}
+					if k := strings.LastIndex(f, "/"); k >= 0 {
+						f = f[k+1:]
+					}
+					fn = f
+					return
+				}
+			}
+			return
+		}
+	}
+	return
+}
+
 type TaskResult struct {
 	Res  json.RawMessage
 	Err  string // error reported by the op
 	Died string // worker died / timed out (the task is the witness)
+	Stderr string // tail of the dead worker's stderr
 }
 
 // Map runs op on every arg in parallel and calls onResult (serialised) for each.
@@ -198,7 +250,9 @@ func (p *Pool) Map(op string, args []interface{}, onResult func(i int, r TaskRes
 				select {
 				case r := <-ch:
 					if r.err != nil {
+						w.cmd.Wait()
 						tr.Died = "worker exited: " + r.err.Error()
+						tr.Stderr = w.err.String()
 						w.stop()
 						w = nil
 					} else {
@@ -213,6 +267,7 @@ func (p *Pool) Map(op string, args []interface{}, onResult func(i int, r TaskRes
 					}
 				case <-time.After(p.TaskTimeout):
 					tr.Died = fmt.Sprintf("worker timed out after %s", p.TaskTimeout)
+					tr.Stderr = w.err.String()
 					w.stop()
 					w = nil
 				}
